@@ -317,6 +317,18 @@ class CallMixin(ExecBase):
         p.pc.append(obj_of_id(r) == v)      # id() is injective on live objects
         return [("ok", p, sv_int(r))]
 
+    def b_max(s, p, args, kwargs, node):
+        if len(args) != 2 or kwargs:
+            raise Unsupported("max() shape")
+        a, b = Val.i(args[0].t), Val.i(args[1].t)
+        return [("ok", p, sv_int(If(a >= b, a, b)))]
+
+    def b_min(s, p, args, kwargs, node):
+        if len(args) != 2 or kwargs:
+            raise Unsupported("min() shape")
+        a, b = Val.i(args[0].t), Val.i(args[1].t)
+        return [("ok", p, sv_int(If(a <= b, a, b)))]
+
     def b_hash(s, p, args, kwargs, node):
         return [("ok", p, sv_int(hash_of(args[0].t)))]      # not injective: equal objects share a hash
 
